@@ -189,6 +189,8 @@ SCALAR_CLASSES = [
     [["s", "2*l"], ["L", "2*l"]],
     [["L", "2000"]],
     [["s", "nan"], ["L", "nan"]],
+    [["f", "2.5e-07"], ["P", "250", -9], ["s", "+2.5E-7"]],          # the opposite of class 4
+    [["P", "2", 0], ["i", 2], ["s", "2.000"], ["P", "2000", -3]],      # the digits of class 0 at another prefix
 ]
 PREF_CLASSES = [[v for v in c if v[0] == "P"] for c in SCALAR_CLASSES]
 PREF_CLASSES = [c for c in PREF_CLASSES if c]
@@ -598,7 +600,8 @@ def exhaustive_small(quick):
     # number-like fields: every pair of spellings, equal or not, inside one history and its reverse
     u = [dict(name="G", fields=[dict(name="r", dtype=["scalar"], default=None)])]
     vals = SCALAR_CLASSES[0][:5 if quick else 12] + SCALAR_CLASSES[1][:3 if quick else 8] + SCALAR_CLASSES[2][:4 if quick else 9] \
-        + SCALAR_CLASSES[5][:2] + SCALAR_CLASSES[7][:2] + SCALAR_CLASSES[8][:1] + SCALAR_CLASSES[9] + SCALAR_CLASSES[11]
+        + SCALAR_CLASSES[5][:2] + SCALAR_CLASSES[7][:2] + SCALAR_CLASSES[8][:1] + SCALAR_CLASSES[9] + SCALAR_CLASSES[11] \
+        + SCALAR_CLASSES[4][:2] + SCALAR_CLASSES[13][:2] + SCALAR_CLASSES[14][:2]
     calls = [[0, [v], "kw" if k % 3 else "inst"] for k, v in enumerate(vals)]
     gs.append(dict(univ=u, table=[], hists=[calls, list(reversed(calls))], tag="box-scalar"))
     u = [dict(name="G", fields=[dict(name="d", dtype=["dec"], default=None), dict(name="p", dtype=["opt", ["pref"]], default=["n"])])]
